@@ -1183,8 +1183,16 @@ func (c *ctx) sgValue(t reflect.Type, depth int) sx {
 		return out
 	case reflect.Map:
 		out := T("map", A("nonnil"))
-		if r.Intn(3) != 0 {
-			out.list = append(out.list, L(H([]byte([]string{"k", "", "key2"}[r.Intn(3)])), c.sgValue(t.Elem(), depth-1)))
+		// several entries (in key order): values that follow each other in one block must not share anything
+		keys := []string{"", "k", "key2", "z9"}
+		n := []int{0, 1, 1, 2, 4}[r.Intn(5)]
+		for _, i := range r.Perm(len(keys))[:n] {
+			keys[i] = "+" + keys[i]
+		}
+		for _, k := range keys {
+			if strings.HasPrefix(k, "+") {
+				out.list = append(out.list, L(H([]byte(k[1:])), c.sgValue(t.Elem(), depth-1)))
+			}
 		}
 		return out
 	case reflect.Pointer:
